@@ -31,11 +31,14 @@ struct Problem
                        // 3 only Y is rewritten (through a fresh getY()); J stays what the buffers hold,
                        // 4 only J is rewritten (through a fresh getJ()); Y stays what the buffers hold
   bool copy = false;    // before this problem the solver is replaced by a copy of itself (the original stays alive)
+  bool reconfigure = false; // before this problem the caller calls setEstimateSize(p) again with the size the solver already has:
+                        // like a fresh solver of that size, it has the identity preconditioner afterwards
   bool resolve = false; // after the solve, solve the same data again with the other un-weighted path (paths 0/1 only)
 };
 
 struct Plan
 {
+  int junk = 0;   // index of the byte every fresh heap allocation is filled with (sim::junkHeap)
   bool isFloat = false;
   int p = 1;             // estimate size
   int ctorRows = -1;     // -1: LeastSquares(p); -2: LeastSquares() + setEstimateSize(p); otherwise LeastSquares(p, ctorRows)
@@ -97,7 +100,7 @@ Outcome runHistory(const Plan & pl, Ctx & c)
   using LS = romea::core::LeastSquares<T>;
   using Mat = typename LS::Matrix; using Vec = typename LS::Vector;
   const int p = pl.p;
-  std::unique_ptr<LS> ls(pl.ctorRows == -2 ? new LS() : (pl.ctorRows < 0 ? new LS((size_t)p) : new LS((size_t)p, (size_t)pl.ctorRows)));
+  std::unique_ptr<LS> ls(pl.ctorRows == -2 ? new LS : (pl.ctorRows < 0 ? new LS((size_t)p) : new LS((size_t)p, (size_t)pl.ctorRows)));
   if (pl.ctorRows == -2) {ls->setEstimateSize((size_t)p); SIM_PROBE("default_constructed_then_setEstimateSize");}
   // the model of the configuration that survives between problems: the preconditioner
   Mat curA = Mat::Identity(p, p); Vec curB = Vec::Zero(p);
@@ -127,11 +130,18 @@ Outcome runHistory(const Plan & pl, Ctx & c)
       // continue on a copy (alternately copy-constructed and copy-assigned over another solver); the original stays
       // alive as a sibling whose buffers must not be touched by what the copy does
       std::unique_ptr<LS> cp;
-      if (no & 1) {cp.reset(new LS(*ls));} else {cp.reset(new LS((size_t)(p + 1), (size_t)7)); *cp = *ls;}
+      if (no % 3 == 1) {cp.reset(new LS(*ls));} else if (no % 3 == 2) {cp.reset(new LS((size_t)(p + 1), (size_t)7)); *cp = *ls;} else {
+        // move construction from a copy (the original stays intact as the sibling)
+        LS tmp(*ls); cp.reset(new LS(std::move(tmp))); SIM_PROBE("continue_on_a_moved_to_solver");
+      }
       sibling = std::move(ls); ls = std::move(cp);
       const LS & sb = *sibling; sibJ = sb.getJ(); sibY = sb.getY();
       Jref = &ls->getJ(); Yref = &ls->getY(); Wref = &ls->getW();
       SIM_PROBE("continue_on_a_copy_of_the_solver");
+    }
+    if (pb.reconfigure) {
+      ls->setEstimateSize((size_t)p); curA = Mat::Identity(p, p); curB = Vec::Zero(p);
+      SIM_PROBE("setEstimateSize_again_with_the_same_size");
     }
     bool grew = ls->setDataSize((size_t)m);
     if (grew != (m > rows)) {
@@ -378,19 +388,26 @@ struct PropC07
       pb.poison = true;
       pb.fill = fillStyle == 0 ? 0 : (int)r.below(5);
       pb.resolve = r.chance(0.2);
+      pb.reconfigure = k > 0 && r.chance(0.08);
       pb.copy = k > 0 && r.chance(0.08);
       p.problems.push_back(pb);
     }
     return p;
   }
-  Plan generate(uint64_t index) const
+  // heap contents are an input of the run like any other: every fresh allocation is filled with a byte chosen by the plan
+  Plan generate(uint64_t index) const {Plan p = generate0(index); p.junk = (int)(mix64(master ^ 0x6a756e6bULL, index) % 5); return p;}
+  Outcome execute(const Plan & p, Ctx & c) const {sim::junkHeap(p.junk, 256 * 1024); return execute0(p, c);}
+  Json toJson(const Plan & p) const {Json j = toJson0(p); j.set("heap_fill_index", p.junk); return j;}
+  Plan fromJson(const Json & j) const {Plan p = fromJson0(j); if (j.has("heap_fill_index")) {p.junk = (int)j["heap_fill_index"].i();} return p;}
+  std::vector<Plan> simpler(const Plan & p) const {std::vector<Plan> out = simpler0(p); if (p.junk != 0) {Plan q = p; q.junk = 0; out.push_back(q);} return out;}
+  Plan generate0(uint64_t index) const
   {
     if (index < scriptedPlans.size()) {return scriptedPlans[index];}
     return randomPlan(mix64(master, index - scriptedPlans.size()));
   }
-  Outcome execute(const Plan & p, Ctx & c) const {return p.isFloat ? runHistory<float>(p, c) : runHistory<double>(p, c);}
+  Outcome execute0(const Plan & p, Ctx & c) const {return p.isFloat ? runHistory<float>(p, c) : runHistory<double>(p, c);}
 
-  Json toJson(const Plan & p) const
+  Json toJson0(const Plan & p) const
   {
     Json j = Json::object();
     j.set("scalar", p.isFloat ? "float" : "double").set("is_float", p.isFloat).set("estimate_size", p.p).set("constructed_with_rows", p.ctorRows);
@@ -400,25 +417,25 @@ struct PropC07
       Json o = Json::object();
       o.set("data_size", pb.m).set("cond", pb.cond).set("scale", pb.scale).set("noise", pb.noise).set("solve", pathName[pb.path]).set("path", pb.path)
       .set("set_preconditioner", pb.precond == 0 ? "no" : (pb.precond == 1 ? "A" : "A,b")).set("precond", pb.precond).set("covariance", pb.covariance)
-      .set("poison_stale_rows", pb.poison).set("fill", pb.fill == 0 ? "fresh getJ()/getY()/getW()" : (pb.fill == 1 ? "none: prefix of what the buffers hold" : (pb.fill == 2 ? "references kept from construction" : (pb.fill == 3 ? "only Y rewritten" : "only J rewritten")))).set("fill_mode", pb.fill).set("solve_again_other_path", pb.resolve).set("continue_on_copy", pb.copy).set("data_seed_hi", (long long)(pb.seed >> 32)).set("data_seed_lo", (long long)(pb.seed & 0xffffffffULL));
+      .set("poison_stale_rows", pb.poison).set("fill", pb.fill == 0 ? "fresh getJ()/getY()/getW()" : (pb.fill == 1 ? "none: prefix of what the buffers hold" : (pb.fill == 2 ? "references kept from construction" : (pb.fill == 3 ? "only Y rewritten" : "only J rewritten")))).set("fill_mode", pb.fill).set("solve_again_other_path", pb.resolve).set("setEstimateSize_again", pb.reconfigure).set("continue_on_copy", pb.copy).set("data_seed_hi", (long long)(pb.seed >> 32)).set("data_seed_lo", (long long)(pb.seed & 0xffffffffULL));
       a.push(o);
     }
     j.set("problems", a);
     j.set("note", "J = Q1 diag(sigma) Q2^T, Y = J x + noise, W, A, b are regenerated deterministically from data_seed");
     return j;
   }
-  Plan fromJson(const Json & j) const
+  Plan fromJson0(const Json & j) const
   {
     Plan p; p.isFloat = j["is_float"].b(); p.p = (int)j["estimate_size"].i(); p.ctorRows = (int)j["constructed_with_rows"].i();
     for (auto & o : j["problems"].a()) {
       Problem pb; pb.m = (int)o["data_size"].i(); pb.cond = o["cond"].d(); pb.scale = o["scale"].d(); pb.noise = o["noise"].d(); pb.path = (int)o["path"].i();
-      pb.precond = (int)o["precond"].i(); pb.covariance = o["covariance"].b(); pb.poison = o["poison_stale_rows"].b(); pb.fill = o.has("fill_mode") ? (int)o["fill_mode"].i() : 0; pb.resolve = o["solve_again_other_path"].b(); pb.copy = o["continue_on_copy"].b();
+      pb.precond = (int)o["precond"].i(); pb.covariance = o["covariance"].b(); pb.poison = o["poison_stale_rows"].b(); pb.fill = o.has("fill_mode") ? (int)o["fill_mode"].i() : 0; pb.resolve = o["solve_again_other_path"].b(); pb.reconfigure = o.has("setEstimateSize_again") && o["setEstimateSize_again"].b(); pb.copy = o["continue_on_copy"].b();
       pb.seed = ((uint64_t)o["data_seed_hi"].i() << 32) | (uint64_t)o["data_seed_lo"].i();
       p.problems.push_back(pb);
     }
     return p;
   }
-  std::vector<Plan> simpler(const Plan & p) const
+  std::vector<Plan> simpler0(const Plan & p) const
   {
     std::vector<Plan> out;
     removalCandidates(p.problems, [&](std::vector<Problem> v) {if (!v.empty()) {Plan q = p; q.problems = std::move(v); out.push_back(q);}});
@@ -436,6 +453,7 @@ struct PropC07
       if (pb.path != 1) {Plan q = p; q.problems[k].path = 1; out.push_back(q);}
       if (pb.fill != 0) {Plan q = p; q.problems[k].fill = 0; out.push_back(q);}
       if (pb.resolve) {Plan q = p; q.problems[k].resolve = false; out.push_back(q);}
+      if (pb.reconfigure) {Plan q = p; q.problems[k].reconfigure = false; out.push_back(q);}
       if (pb.copy) {Plan q = p; q.problems[k].copy = false; out.push_back(q);}
     }
     return out;
@@ -462,7 +480,7 @@ struct PropC07
   {
     std::string s = o.cls + "|" + (p.isFloat ? "float" : "double") + "|";
     int rows = std::max(0, p.ctorRows);
-    for (auto & pb : p.problems) {int m = std::max(pb.m, p.p); s += m > rows ? "G" : (m < rows ? "S" : "E"); s += "scw"[pb.path]; if (pb.fill) {s += "?kryj"[pb.fill];} if (pb.resolve) {s += "2";} if (pb.copy) {s += "C";} rows = std::max(rows, m);}
+    for (auto & pb : p.problems) {int m = std::max(pb.m, p.p); s += m > rows ? "G" : (m < rows ? "S" : "E"); s += "scw"[pb.path]; if (pb.fill) {s += "?kryj"[pb.fill];} if (pb.resolve) {s += "2";} if (pb.copy) {s += "C";} if (pb.reconfigure) {s += "R";} rows = std::max(rows, m);}
     return s;
   }
   std::vector<uint64_t> sampleIndexes() const {return {0, 2, 3, 4};}
@@ -479,7 +497,9 @@ struct PropC07
       "A plan is (scalar type, estimate size 1..8, constructor variant, list of <= 12 problems); each problem has a data size in "
       "[p,500], a design matrix J = Q1 diag(sigma) Q2^T with prescribed condition number (<= 1e6 double, <= 1e3 float) and scale "
       "(1e-6..1e6), Y = J x + noise, a solve path (SVD / Cholesky / weighted), optionally a new preconditioner (A or A,b) and a "
-      "covariance query. Rows of the solver's buffers beyond the current data size are poisoned with large finite values before each "
+      "covariance query; a problem may also be the prefix of what the buffers hold, be written through references kept from construction, "
+      "be preceded by a copy / assignment / move of the solver or by setEstimateSize() with the size it already has, and be solved twice. Heap and "
+      "stack are filled with a plan-chosen byte. Rows of the solver's buffers beyond the current data size are poisoned with large finite values before each "
       "solve. distinct = distinct hash of (type, p, per problem: grow/shrink/equal, path, preconditioner op, size class); "
       "non-trivial = at least one problem is solved in buffers larger than itself.");
     Json or_ = Json::array();
